@@ -258,6 +258,8 @@ class Bound:
             from ..astutil import inline_call_expr
             inl = inline_call_expr(e, self.find_method)
             if inl is not None:
+                from ..astutil import set_parents
+                set_parents(inl)._parent = getattr(e, "_parent", None)     # the inlined body sits where the call is
                 return self.ev(inl, at, depth + 1)
         if isinstance(e, ast.Attribute) and self.x(e) == "self.raw_nb_of_instances":
             return GE
